@@ -9,13 +9,25 @@ Model of the group-sharing machinery of the schema compiler f8c (C14; used by th
 * `CGMap`              `CommonGroupMap` = map count tag -> (`CommonGroups` = map hash -> MessageSpec).  `std::map` is modelled as
                        an association list with unique keys (iteration order is not observable in the generated metadata;
                        it only numbers the `V<n>` names of shared trait arrays)
-* `cgInsert`           compiler/f8c.cpp:670-681 of `parse_groups`: `insert` keeps the FIRST spec stored under a hash, then the
-                       reference count of whatever entry is found is incremented
-* `findGroup`          compiler/f8c.cpp:1558
-* `resolve`            what `generate_group_bodies` (f8c.cpp:742-850) emits for one group of one message: the traits of
-                       `find_group(count tag, hash)` and, for its nested groups, recursively the looked-up specs of the nested
+* `goodSlot`, `probeLoop`, `probe`   the probing loop of the fixed `parse_groups` (f8c.cpp:674-679):
+                       `for (hv = group_hash(spec); find(hv) != end && !same_group_definition(found, spec); ++hv);` on `uint32_t`
+                       (wraps).  `same_group_definition` (deep comparison of the presence rows fnum/ftype/pos/component/bits and,
+                       recursively, of the nested groups with their count tags) is `GSpec.beq`, which is equality (`beq_eq`, `beq_refl`).
+                       The C++ loop has no bound; the model gives it `entries + 1` steps of fuel and `probe_exits`
+                       (GroupHashLemmas) shows that a table with fewer than 2^32 entries never exhausts it.
+* `cgInsert`           f8c.cpp:671-686: the spec is inserted under the probed key (no-op when the key already holds the
+                       identical definition), then the reference count of that entry is incremented
+* `probeKey`           the `_hash` member of a group spec.  f8c stores the probed key in the spec (`_hash = hv`, line 680) and
+                       `generate_group_bodies` looks the group up under that stored key.  The model does not carry the member: it
+                       recomputes the key against the FINAL map; `probe_stable` (GroupHashLemmas) proves that the key a definition
+                       received when it was inserted is the key the probe finds in every later state of the map.
+* `findGroup`          f8c.cpp `find_group`
+* `resolve`            what `generate_group_bodies` emits for one group of one message: the traits of
+                       `find_group(count tag, _hash)` and, for its nested groups, recursively the looked-up specs of the nested
                        groups OF THE LOOKED-UP SPEC (`generate_group_bodies(*tgroup, ...)`)
 
+This is the compiler AFTER the fix "f8c shares generated group traits only between identical definitions" (before it the key was
+the bare `group_hash` and the first definition stored under a hash was generated for every colliding one).
 The option `--noshared` (every hash unique) is not modelled: the checks never pass it.
 -/
 namespace Fix8Model.Compiler
@@ -89,7 +101,7 @@ def rothash (r v : W) : W :=
 def foldTags (r : W) (tags : List Nat) : W := tags.foldl (fun r t => rothash r (BitVec.ofNat 32 t)) r
 
 /-- the last member tag that makes the plain definition `ys ++ [·]` collide with `xs ++ [x]`
-(`Props.C14.C14_finding_collision_any`); used by the check to manufacture colliding definitions -/
+(`Props.C14.C14_key_collision_any`); used by the check to manufacture colliding definitions -/
 def partner (xs ys : List Nat) (x : Nat) : Nat :=
   (BitVec.ofNat 32 x ^^^ rhLin (foldTags 0 xs ^^^ foldTags 0 ys)).toNat
 
@@ -122,17 +134,41 @@ def cgInsertVariants (cg : CommonGroups) (k : W) (s : GSpec) : CommonGroups :=
   | [] => [⟨k, s, 1⟩]
   | e :: rest => if e.key == k then { e with refcnt := e.refcnt + 1 } :: rest else e :: cgInsertVariants rest k s
 
-/-- lines 670-681 of `parse_groups` for one parsed group with count tag `tag` -/
+/-- the spec stored under key `k`, if any -/
+def cgSpec (cg : CommonGroups) (k : W) : Option GSpec := (cgFind cg k).map (·.spec)
+
+/-- exit condition of the probing loop at key `k`: the slot is free or holds the identical definition
+(`find(hv) == end || same_group_definition(found, spec)`) -/
+def goodSlot (cg : CommonGroups) (s : GSpec) (k : W) : Bool :=
+  match cgSpec cg k with
+  | none => true
+  | some x => GSpec.beq x s
+
+/-- `for (; !good(hv); ++hv);` with fuel -/
+def probeLoop (good : W → Bool) : Nat → W → W
+  | 0, k => k
+  | n + 1, k => if good k then k else probeLoop good n (k + 1)
+
+/-- the key under which `s` is stored in / found in the variants `cg` of its count tag -/
+def probe (cg : CommonGroups) (s : GSpec) : W := probeLoop (goodSlot cg s) (cg.length + 1) (groupHash s)
+
+/-- the variants recorded for a count tag (`globmap.find(tag)`, empty when absent) -/
+def variants (m : CGMap) (tag : Nat) : CommonGroups :=
+  match m.find? (fun p => p.1 = tag) with
+  | none => []
+  | some p => p.2
+
+/-- f8c.cpp:671-686 of `parse_groups` for one parsed group with count tag `tag` -/
 def cgInsert (m : CGMap) (tag : Nat) (s : GSpec) : CGMap :=
   match m with
-  | [] => [(tag, cgInsertVariants [] (groupHash s) s)]
-  | (t, cg) :: rest => if t = tag then (t, cgInsertVariants cg (groupHash s) s) :: rest else (t, cg) :: cgInsert rest tag s
+  | [] => [(tag, cgInsertVariants [] (probe [] s) s)]
+  | (t, cg) :: rest => if t = tag then (t, cgInsertVariants cg (probe cg s) s) :: rest else (t, cg) :: cgInsert rest tag s
 
 /-- `find_group(globmap, vers, tp, key)` (the version number only names the shared arrays) -/
-def findGroup (m : CGMap) (tag : Nat) (k : W) : Option CGEntry :=
-  match m.find? (fun p => p.1 = tag) with
-  | none => none
-  | some (_, cg) => cgFind cg k
+def findGroup (m : CGMap) (tag : Nat) (k : W) : Option CGEntry := cgFind (variants m tag) k
+
+/-- the `_hash` member of the spec `s` of a group with count tag `tag` (see the header) -/
+def probeKey (m : CGMap) (tag : Nat) (s : GSpec) : W := probe (variants m tag) s
 
 mutual
 /-- all groups of a spec in the order `parse_groups` inserts them: nested groups first (post-order) -/
@@ -162,12 +198,12 @@ def optMapGroups (f : Nat → GSpec → Option GSpec) : List (Nat × GSpec) → 
     | _, _ => none
 
 /-- what the generated code contains for the group `(tag, s)` of some message: the definition stored under
-`(tag, hash s)`, nested groups resolved the same way from the STORED definition.  `none` = "not found" branch
+`(tag, _hash of s)`, nested groups resolved the same way from the STORED definition.  `none` = "not found" branch
 (f8c.cpp:758, the group class is not generated).  Fuel bounds the nesting depth. -/
 def resolve (m : CGMap) : Nat → Nat → GSpec → Option GSpec
   | 0, _, _ => none
   | fuel + 1, tag, s =>
-    match findGroup m tag (groupHash s) with
+    match findGroup m tag (probeKey m tag s) with
     | none => none
     | some e => (optMapGroups (resolve m fuel) e.spec.groups).map (GSpec.mk e.spec.traits)
 
